@@ -7,14 +7,14 @@ use ascent::{Dual, Lattice};
 use vh_lite::{rows_json, Driven, Value};
 ascent::ascent_par! {
    pub struct Prog;
-   relation e(i32, i32);
+   relation w(i32, i32, i32);
    lattice sp(i32, i32, Dual<i32>);
    relation far(i32, i32);
    relation nsp(i32);
    relation tot(i32);
-   sp(x, y, Dual(1)) <-- e(x, y);
-   sp(x, z, Dual((((*l)).0 + 1))) <-- e(x, y), sp(y, z, l);
-   far(x, (m as i32)) <-- e(x, _), agg m = ascent::aggregators::count() in sp(x, _, _);
+   sp(x, y, Dual((*c))) <-- w(x, y, c);
+   sp(x, z, Dual(((*c) + ((*l)).0))) <-- w(x, y, c), sp(y, z, l), if (((*c) + ((*l)).0) < 9);
+   far(x, (m as i32)) <-- w(x, _, _), agg m = ascent::aggregators::count() in sp(x, _, _);
    nsp((n as i32)) <-- agg n = ascent::aggregators::count() in sp(_, _, _);
    tot(s) <-- agg s = vh_lite::aggs::sumpairs(x, y) in far(x, y);
 }
@@ -23,7 +23,7 @@ pub struct D(Prog);
 impl Driven for D {
    fn push(&mut self, rel: &str, row: &Value) {
       match rel {
-         "e" => { self.0.e.push((row[0].as_i64().unwrap() as i32, row[1].as_i64().unwrap() as i32,)); },
+         "w" => { self.0.w.push((row[0].as_i64().unwrap() as i32, row[1].as_i64().unwrap() as i32, row[2].as_i64().unwrap() as i32,)); },
          "sp" => { self.0.sp.push(std::sync::RwLock::new((row[0].as_i64().unwrap() as i32, row[1].as_i64().unwrap() as i32, Dual(row[2].as_i64().unwrap() as i32),))); },
          "far" => { self.0.far.push((row[0].as_i64().unwrap() as i32, row[1].as_i64().unwrap() as i32,)); },
          "nsp" => { self.0.nsp.push((row[0].as_i64().unwrap() as i32,)); },
@@ -34,7 +34,7 @@ impl Driven for D {
    fn run(&mut self) { self.0.run(); }
    fn dump(&self) -> Value {
       let mut m: Vec<(String, Value)> = vec![];
-      m.push(("e".to_string(), rows_json(self.0.e.iter())));
+      m.push(("w".to_string(), rows_json(self.0.w.iter())));
       let __v: Vec<(i32, i32, Dual<i32>,)> = self.0.sp.iter().map(|r| r.read().unwrap().clone()).collect();
       m.push(("sp".to_string(), rows_json(__v.iter())));
       m.push(("far".to_string(), rows_json(self.0.far.iter())));
